@@ -39,7 +39,6 @@ TRANSPARENT_CALLS = [
     r"^std::string::ToString::to_string$",
     r"^std::option::Option::<T>::as_ref$",
     r"^std::option::Option::<T>::filter$",      # the same option, or None: no new value
-    r"^std::option::Option::<T>::take$",
     r"^std::option::Option::<&T>::cloned$",
     r"^std::option::Option::<&T>::copied$",
     r"^std::option::Option::<T>::ok_or_else$",
